@@ -154,7 +154,7 @@ func (e *Encoder) havocEpoch(st *State) { st.havocs = append(st.havocs, havocRec
 // havocSet havocks the known components in ws and records it for components mentioned later.
 func (e *Encoder) havocSet(st *State, ws *writeSet) {
 	for _, k := range sortedKeys(e.compSort) {
-		if strings.HasPrefix(k, "LW.") || strings.HasPrefix(k, "LR.") || k == "alloc" || strings.HasPrefix(k, "ITER.") {
+		if strings.HasPrefix(k, "LW.") || strings.HasPrefix(k, "LR.") || k == "alloc" || strings.HasPrefix(k, "ITER.") || k == "CH.pending" {
 			continue
 		}
 		if ws.matches(k) {
